@@ -363,6 +363,11 @@ def run_bounded(res, tier, seed):
     for c in bounded_cases(tier, seed):
         sig = {k: c.get(k) for k in ("container", "level", "multiindex", "extra_coord")}
         sig["multi_sample_dims"] = c["ns"] > 1
+        if c["container"] == "list":
+            # where the sample dims sit along the axes of each item (the input feature behind a known finding)
+            Xs, sd_ = _build(c, np.random.default_rng(c["seed"]))
+            pos = [tuple(x.dims.index(d) for d in sd_) for x in Xs]
+            sig["sample_dim_positions_differ"] = len(set(pos)) > 1
         try:
             ok, detail = eval_case(c)
         except Exception as e:  # noqa: BLE001
